@@ -64,6 +64,10 @@ INV_UNITS = set(INV_CONE)
 WRAPPERS6 = ["decorate_with_checker/wrapper[sync]", "decorate_with_checker/wrapper[async]", "_decorate_with_invariants/wrapper[0]",
              "_decorate_with_invariants/wrapper[1]", "_decorate_with_invariants/wrapper[2]", "_decorate_new_with_invariants/wrapper"]
 
+PROP_BOUND = dict(unit="_metaclass.py::_decorate_namespace_property", script="histfam.py",
+                  bound="16 definition histories, 4 of them with property getters (two bases with postconditions/snapshots, two bases with preconditions, "
+                        "one unconstrained base in either order, a chain with a gap), each compared with the effective contracts computed from the declarations "
+                        "and with identity/content snapshots of every earlier class")
 PROPS = {}
 PROPS_LATE = {
     "C06": dict(units=RC_CONE + COLLECT_CONE + ["repr_values", "_representable"], replay="expr", hints=["short-circuit", "None", "star", "all"],
@@ -81,13 +85,13 @@ PROPS_LATE = {
                                     "{public, _private, dunder, property, classmethod, staticmethod, async, __setattr__} x constructors calling super().__init__ "
                                     "first/last x operation sequences of <= 12 steps; compared with a reference written from the statement")]),
     "C04": dict(units=META_CONE + ["find_checker", "_assert_preconditions", "_assert_preconditions_async", "_assert_postconditions",
-                                   "_assert_postconditions_async"], replay="hist", hints=["two bases", "chain", "gap", "weaken", "constructor"]),
+                                   "_assert_postconditions_async"], replay="hist", hints=["two bases", "chain", "gap", "weaken", "constructor"], bounded=[PROP_BOUND]),
     "C17": dict(units=META_CONE + ["find_checker", "require.__call__", "ensure.__call__", "snapshot.__call__", "add_precondition_to_checker",
                                    "add_postcondition_to_checker", "add_snapshot_to_checker", "decorate_with_checker"], replay="hist",
-                hints=["invariant added", "two bases", "chain"]),
+                hints=["invariant added", "two bases", "chain"], bounded=[PROP_BOUND]),
     "C18": dict(units=META_CONE + ["find_checker", "_unpack_pre_snap_posts", "decorate_with_checker", "decorate_with_checker/wrapper[sync]",
                                    "decorate_with_checker/wrapper[async]", "_assert_preconditions", "_assert_postconditions", "_capture_old"],
-                replay="hist", hints=["chain", "two bases", "invariants along"]),
+                replay="hist", hints=["chain", "two bases", "invariants along"], bounded=[PROP_BOUND]),
     "C14": dict(units=CHECKER_CONE + INV_CONE + ["decorate_with_checker", "find_checker", "require.__call__", "ensure.__call__", "snapshot.__call__", "invariant.__call__",
                                    "resolve_kwdefaults"], replay="defn", hints=["foreign", "single_checker", "disabled"]),
     "C09": dict(units=CHECKER_CONE + ["_assert_invariant", "Contract.__init__", "Invariant.__init__", "require.__init__", "ensure.__init__",
@@ -112,7 +116,9 @@ PROPS_LATE = {
     "C08": dict(units=CHECKER_CONE, replay="call", hints=["posts", "fault"]),
     "C11": dict(units=CHECKER_CONE + INV_CONE, replay="call", hints=["reentrant", "fault"]),
     "C13": dict(units=CHECKER_CONE + INV_CONE, replay="call", hints=["async"]),
-    "C16": dict(units=CHECKER_CONE + INV_CONE, replay="call", hints=["groups", "posts"]),
+    "C16": dict(units=CHECKER_CONE + INV_CONE + ["add_precondition_to_checker", "add_postcondition_to_checker", "add_snapshot_to_checker", "require.__call__",
+                      "ensure.__call__", "snapshot.__call__", "_collapse_preconditions", "_collapse_postconditions", "_collapse_snapshots", "_collapse_invariants"],
+                replay="call", hints=["groups", "posts", "stacked"]),
     "C10": dict(units=["decorate_with_checker/wrapper[sync]", "decorate_with_checker/wrapper[async]"] + INV_CONE, replay="call",
                 hints=["body_recursion", "reentrant"]),
 }
